@@ -76,7 +76,7 @@ structure Inv (ms : List Nat) (s : State) : Prop where
   mAfter : s.sender ≠ .sending → s.mCloses = 1
   vBefore : s.sender ≠ .done → s.vCloses = 0
   vAfter : s.sender = .done → s.vCloses = 1
-  doneAllRet : s.sender = .done → allReturned s.workers = true
+  doneAllRet : s.sender = .closing ∨ s.sender = .done → allReturned s.workers = true
   nilNeedsClose : s.mCloses = 0 → ∀ w ∈ s.workers, w ≠ .retNil
   errCancels : s.failed = true → s.cancelled = true
   retErrFailed : .retErr ∈ s.workers → s.failed = true
@@ -84,9 +84,9 @@ structure Inv (ms : List Nat) (s : State) : Prop where
   leftLoop : s.sender ≠ .sending → s.toSend = [] ∨ s.broke = true
   brokeWhy : s.broke = true → s.failed = true ∨ s.parentCancelled = true
   brokeCancelled : s.broke = true → s.cancelled = true
-  cancelWhy : s.cancelled = true → s.failed = true ∨ s.parentCancelled = true ∨ s.sender = .done
-  doneOk : s.sender = .done → s.senderErr = false → s.failed = false ∧ s.broke = false ∧ s.toSend = []
-  doneErr : s.sender = .done → s.failed = true → s.senderErr = true
+  cancelWhy : s.cancelled = true → s.failed = true ∨ s.parentCancelled = true ∨ (s.sender = .closing ∨ s.sender = .done)
+  doneOk : s.sender = .closing ∨ s.sender = .done → s.senderErr = false → s.failed = false ∧ s.broke = false ∧ s.toSend = []
+  doneErr : s.sender = .closing ∨ s.sender = .done → s.failed = true → s.senderErr = true
   conserve : s.failed = false → s.broke = false → ∀ a,
     s.toSend.count a + (held s.workers).count a + s.buf.count a + s.collected.count a = ms.count a
 
@@ -120,6 +120,10 @@ theorem inv_worker {ms : List Nat} {s : State} (h : Inv ms s) {w : Nat} {old new
     Inv ms s' := by
   have hnotdone : s.sender ≠ .done := by
     intro hd
+    have := returned_of_all (h.doneAllRet (Or.inr hd)) hw
+    rw [hold] at this; cases this
+  have hnotafter : ¬ (s.sender = .closing ∨ s.sender = .done) := by
+    intro hd
     have := returned_of_all (h.doneAllRet hd) hw
     rw [hold] at this; cases this
   constructor
@@ -129,7 +133,7 @@ theorem inv_worker {ms : List Nat} {s : State} (h : Inv ms s) {w : Nat} {old new
   · rw [hsender, hm]; exact h.mAfter
   · rw [hsender, hv]; exact h.vBefore
   · rw [hsender, hv]; exact h.vAfter
-  · rw [hsender]; intro hd; exact absurd hd hnotdone
+  · rw [hsender]; intro hd; exact absurd hd hnotafter
   · rw [hm, hws]
     intro h0 x hx
     rcases mem_set_cases hx with rfl | hx
@@ -160,8 +164,8 @@ theorem inv_worker {ms : List Nat} {s : State} (h : Inv ms s) {w : Nat} {old new
       · exact Or.inr (Or.inl h1)
       · exact Or.inr (Or.inr h1)
     · exact Or.inl hc
-  · rw [hsender]; intro hd; exact absurd hd hnotdone
-  · rw [hsender]; intro hd; exact absurd hd hnotdone
+  · rw [hsender]; intro hd; exact absurd hd hnotafter
+  · rw [hsender]; intro hd; exact absurd hd hnotafter
   · intro hf hb a
     have hf0 : s.failed = false := by
       cases hsf : s.failed with
@@ -180,6 +184,7 @@ theorem inv_step {ms : List Nat} {s : State} (h : Inv ms s) (op : Op) : Inv ms (
     split
     · rename_i m rest hsd hb hts hw
       have hnotdone : s.sender ≠ .done := by rw [hsd]; intro x; cases x
+      have hnotafter : ¬ (s.sender = .closing ∨ s.sender = .done) := by rw [hsd]; rintro (x | x) <;> cases x
       constructor <;> simp only []
       · rw [List.length_set]; exact h.nworkers
       · exact h.noPanic
@@ -187,7 +192,7 @@ theorem inv_step {ms : List Nat} {s : State} (h : Inv ms s) (op : Op) : Inv ms (
       · exact h.mAfter
       · exact h.vBefore
       · exact h.vAfter
-      · intro hd; exact absurd hd hnotdone
+      · intro hd; exact absurd hd hnotafter
       · intro h0 x hx
         rcases mem_set_cases hx with rfl | hx
         · intro hn; cases hn
@@ -202,8 +207,8 @@ theorem inv_step {ms : List Nat} {s : State} (h : Inv ms s) (op : Op) : Inv ms (
       · exact h.brokeWhy
       · exact h.brokeCancelled
       · exact h.cancelWhy
-      · intro hd; exact absurd hd hnotdone
-      · intro hd; exact absurd hd hnotdone
+      · intro hd; exact absurd hd hnotafter
+      · intro hd; exact absurd hd hnotafter
       · intro hf hb' a
         have := h.conserve hf hb' a
         have h2 := count_held_set (new := WPhase.got m) hw a
@@ -216,6 +221,7 @@ theorem inv_step {ms : List Nat} {s : State} (h : Inv ms s) (op : Op) : Inv ms (
     split
     · rename_i hsd hb hts hc
       have hnotdone : s.sender ≠ .done := by rw [hsd]; intro x; cases x
+      have hnotafter : ¬ (s.sender = .closing ∨ s.sender = .done) := by rw [hsd]; rintro (x | x) <;> cases x
       constructor <;> simp only []
       · exact h.nworkers
       · exact h.noPanic
@@ -233,11 +239,11 @@ theorem inv_step {ms : List Nat} {s : State} (h : Inv ms s) (op : Op) : Inv ms (
         rcases h.cancelWhy hc with h1 | h1 | h1
         · exact Or.inl h1
         · exact Or.inr h1
-        · exact absurd h1 hnotdone
+        · exact absurd h1 hnotafter
       · intro _; exact hc
       · exact h.cancelWhy
-      · intro hd; exact absurd hd hnotdone
-      · intro hd; exact absurd hd hnotdone
+      · intro hd; exact absurd hd hnotafter
+      · intro hd; exact absurd hd hnotafter
       · intro _ hb'; cases hb'
     · exact h
   | closeM =>
@@ -254,7 +260,7 @@ theorem inv_step {ms : List Nat} {s : State} (h : Inv ms s) (op : Op) : Inv ms (
       · intro _; trivial
       · intro _; exact h.vBefore (by rw [hsd]; intro x; cases x)
       · intro x; cases x
-      · intro x; cases x
+      · rintro (x | x) <;> cases x
       · intro x; cases x
       · exact h.errCancels
       · exact h.retErrFailed
@@ -266,9 +272,9 @@ theorem inv_step {ms : List Nat} {s : State} (h : Inv ms s) (op : Op) : Inv ms (
         rcases h.cancelWhy hc with h1 | h1 | h1
         · exact Or.inl h1
         · exact Or.inr (Or.inl h1)
-        · rw [hsd] at h1; cases h1
-      · intro x; cases x
-      · intro x; cases x
+        · rw [hsd] at h1; rcases h1 with x | x <;> cases x
+      · rintro (x | x) <;> cases x
+      · rintro (x | x) <;> cases x
       · exact h.conserve
     · exact h
   | check w sees =>
@@ -342,7 +348,7 @@ theorem inv_step {ms : List Nat} {s : State} (h : Inv ms s) (op : Op) : Inv ms (
     · rename_i m hw
       have hnotdone : s.sender ≠ .done := by
         intro hd
-        have := returned_of_all (h.doneAllRet hd) hw
+        have := returned_of_all (h.doneAllRet (Or.inr hd)) hw
         cases this
       have hv0 := h.vBefore hnotdone
       simp only [hv0, ne_eq, not_true_eq_false, if_false]
@@ -390,24 +396,22 @@ theorem inv_step {ms : List Nat} {s : State} (h : Inv ms s) (op : Op) : Inv ms (
       obtain ⟨hsd, hall⟩ := hcond
       have hnotdone : s.sender ≠ .done := by rw [hsd]; intro x; cases x
       have hnotsending : s.sender ≠ .sending := by rw [hsd]; intro x; cases x
-      have hv0 := h.vBefore hnotdone
-      simp only [hv0, if_true]
       constructor <;> simp only []
       · exact h.nworkers
       · exact h.noPanic
       · intro x; cases x
       · intro _; exact h.mAfter hnotsending
-      · intro x; exact absurd rfl x
-      · intro _; trivial
+      · intro _; exact h.vBefore hnotdone
+      · intro x; cases x
       · intro _; exact hall
       · exact h.nilNeedsClose
       · intro _; trivial
       · exact h.retErrFailed
-      · intro hd; exact ⟨trivial, (h.collDone hd).2⟩
+      · exact h.collDone
       · intro _; exact h.leftLoop hnotsending
       · exact h.brokeWhy
       · intro _; trivial
-      · intro _; exact Or.inr (Or.inr trivial)
+      · intro _; exact Or.inr (Or.inr (Or.inl trivial))
       · intro _ herr
         have hf : s.failed = false := by
           cases hf : s.failed with
@@ -429,6 +433,38 @@ theorem inv_step {ms : List Nat} {s : State} (h : Inv ms s) (op : Op) : Inv ms (
         · exact h1
         · rw [hb] at h1; cases h1
       · intro _ hf; simp [hf]
+      · exact h.conserve
+    · exact h
+  | closeV =>
+    simp only [step]
+    split
+    · rename_i hsd
+      have hnotdone : s.sender ≠ .done := by rw [hsd]; intro x; cases x
+      have hnotsending : s.sender ≠ .sending := by rw [hsd]; intro x; cases x
+      have hv0 := h.vBefore hnotdone
+      simp only [hv0, if_true]
+      constructor <;> simp only []
+      · exact h.nworkers
+      · exact h.noPanic
+      · intro x; cases x
+      · intro _; exact h.mAfter hnotsending
+      · intro x; exact absurd rfl x
+      · intro _; trivial
+      · intro _; exact h.doneAllRet (Or.inl hsd)
+      · exact h.nilNeedsClose
+      · exact h.errCancels
+      · exact h.retErrFailed
+      · intro hd; exact ⟨trivial, (h.collDone hd).2⟩
+      · intro _; exact h.leftLoop hnotsending
+      · exact h.brokeWhy
+      · exact h.brokeCancelled
+      · intro hc
+        rcases h.cancelWhy hc with h1 | h1 | h1
+        · exact Or.inl h1
+        · exact Or.inr (Or.inl h1)
+        · exact Or.inr (Or.inr (Or.inr trivial))
+      · intro _; exact h.doneOk (Or.inl hsd)
+      · intro _; exact h.doneErr (Or.inl hsd)
       · exact h.conserve
     · exact h
   | collect =>
@@ -618,6 +654,12 @@ theorem step_decreases (s : State) (op : Op) (h : (step s op).2 = .ok) :
     simp only [step] at h ⊢
     split at h
     · rename_i hcond
+      simp [measure, hcond, sWeight]
+    · cases h
+  | closeV =>
+    simp only [step] at h ⊢
+    split at h
+    · rename_i hcond
       split at h
       · rename_i hv
         simp [measure, hcond, hv, sWeight]
@@ -663,7 +705,7 @@ theorem sumW_replicate_idle (n : Nat) : sumW (List.replicate n WPhase.idle) = n 
   | zero => rfl
   | succ n ih => simp only [List.replicate_succ, sumW, wWeight, ih]; omega
 
-theorem measure_init (lim : Nat) (ms : List Nat) : measure (init lim ms) = 6 * ms.length + lim + 5 := by
+theorem measure_init (lim : Nat) (ms : List Nat) : measure (init lim ms) = 6 * ms.length + lim + 6 := by
   simp [measure, init, sumW_replicate_idle, sWeight]
 
 /-- Deadlock freedom: a state that satisfies the invariant and in which not
@@ -689,7 +731,7 @@ theorem exists_enabled {ms : List Nat} {s : State} (h : Inv ms s) (hlim : 0 < s.
     | sending m =>
       have hnotdone : s.sender ≠ .done := by
         intro hd
-        have := returned_of_all (h.doneAllRet hd) hi
+        have := returned_of_all (h.doneAllRet (Or.inr hd)) hi
         cases this
       have hv0 := h.vBefore hnotdone
       by_cases hlt : s.buf.length < s.lim
@@ -708,6 +750,7 @@ theorem exists_enabled {ms : List Nat} {s : State} (h : Inv ms s) (hlim : 0 < s.
           cases hs : s.sender with
           | sending => rfl
           | waiting => have := h.mAfter (by rw [hs]; intro x; cases x); omega
+          | closing => have := h.mAfter (by rw [hs]; intro x; cases x); omega
           | done => have := h.mAfter (by rw [hs]; intro x; cases x); omega
         cases hb : s.broke with
         | true => exact ⟨.closeM, rfl, by simp [step, hsd, hb, hm]⟩
@@ -741,8 +784,10 @@ theorem exists_enabled {ms : List Nat} {s : State} (h : Inv ms s) (hlim : 0 < s.
             | sending _ => cases hret
           exact ⟨.senderBreak, rfl, by simp [step, hs, hb, hts, hc]⟩
     | waiting =>
+      exact ⟨.senderWait, rfl, by simp [step, hs, hall]⟩
+    | closing =>
       have hv0 := h.vBefore (by rw [hs]; intro x; cases x)
-      exact ⟨.senderWait, rfl, by simp [step, hs, hall, hv0]⟩
+      exact ⟨.closeV, rfl, by simp [step, hs, hv0]⟩
     | done =>
       have hv1 := h.vAfter hs
       cases hcd : s.collectorDone with
@@ -758,7 +803,7 @@ theorem final_ok_collected {ms : List Nat} {s : State} (h : Inv ms s) (hf : fina
     (hok : s.senderErr = false) : s.collected.Perm ms := by
   simp only [final, Bool.and_eq_true, beq_iff_eq] at hf
   obtain ⟨⟨hsd, hcd⟩, hall⟩ := hf
-  obtain ⟨hfail, hbroke, hts⟩ := h.doneOk hsd hok
+  obtain ⟨hfail, hbroke, hts⟩ := h.doneOk (Or.inr hsd) hok
   have hc := h.conserve hfail hbroke
   rw [List.perm_iff_count]
   intro a
